@@ -78,3 +78,13 @@ Proof.
   split; [|reflexivity].
   repeat constructor; simpl; try (intros [H|H]; try discriminate H; try contradiction); try tauto.
 Qed.
+
+(* ... and no-data values where an input lacks them: over the range of an input that has no data set with label l,
+   the merged array of label l holds only the no-data value *)
+Theorem C16_merged_data_blank_elsewhere : forall ins,
+  Forall wf_inp ins ->
+  forall l v, lookup l (merge_data ins) = Some v ->
+  forall k i, nth_error ins k = Some i -> (forall d, In d (ds i) -> lbl0 d <> l) ->
+  all_none (slice v (doff ins k (lcell l)) (isize i (lcell l))) = true.
+Proof. exact merged_data_blank. Qed.
+Print Assumptions C16_merged_data_blank_elsewhere.
